@@ -1,0 +1,45 @@
+//go:build verif
+
+// Package vhook provides instrumentation points for external verification
+// harnesses. With the "verif" build tag, Point and Event forward to functions
+// installed by the harness; if none is installed they do nothing.
+package vhook
+
+import "sync/atomic"
+
+type hookFn func(string, ...any)
+
+var pointFn, eventFn atomic.Pointer[hookFn]
+
+// Install sets the functions called by Point and Event. A nil function
+// disables the corresponding hook.
+func Install(point, event func(string, ...any)) {
+	if point == nil {
+		pointFn.Store(nil)
+	} else {
+		f := hookFn(point)
+		pointFn.Store(&f)
+	}
+	if event == nil {
+		eventFn.Store(nil)
+	} else {
+		f := hookFn(event)
+		eventFn.Store(&f)
+	}
+}
+
+// Point marks a scheduling point. It is only ever called where the caller
+// holds no lock, so the installed function may block.
+func Point(site string, args ...any) {
+	if f := pointFn.Load(); f != nil {
+		(*f)(site, args...)
+	}
+}
+
+// Event reports a state change. It is called inside the critical section that
+// makes the change, so the installed function must not block.
+func Event(name string, args ...any) {
+	if f := eventFn.Load(); f != nil {
+		(*f)(name, args...)
+	}
+}
